@@ -622,20 +622,42 @@ def u_hostile_tlcp(ctx, u):
         return
     f_chain, f_priv, _ = build_chain(tag + '-foreign', None, leaf_cn='client')
     other_priv = X.priv_from_seed(tag, 'attacker-key')
-    for variant in u['variants']:
+    def strip_extensions(rec):
+        """The recorded ClientHello without its extensions block (legal before TLS 1.3)."""
+        b = rec[5:]
+        p = 4 + 2 + 32
+        p += 1 + b[p]
+        p += 2 + int.from_bytes(b[p:p + 2], 'big')
+        p += 1 + b[p]
+        if p >= len(b):
+            return None
+        body = b[4:p]
+        msg = bytes([1]) + len(body).to_bytes(3, 'big') + body
+        return rec[:3] + len(msg).to_bytes(2, 'big') + msg
+    bare = strip_extensions(ch[0])
+    jobs = [(v, ch[0], '') for v in u['variants']]
+    if bare is not None:
+        # the same flows after a hello without extensions: whatever the server then decides to request, it must not complete
+        # without a valid chain and a valid proof of possession
+        jobs += [(v, bare, '+hello-without-extensions') for v in u['variants']]
+    for variant0, hello, suffix in jobs:
+        variant = variant0 + suffix
         c_end, s_end = socket.socketpair()
         srv = T.Endpoint(ctx, srv_ctx, s_end, 's', rng.randrange(1, 1 << 30), False)
         th = threading.Thread(target=srv.handshake)
         th.start()
-        cl = HT.Client(c_end, ch[0], R.pub(enc_priv), rng) if pname == 'tlcp' else HT.Client12(c_end, ch[0], rng)
+        cl = HT.Client(c_end, hello, R.pub(enc_priv), rng) if pname == 'tlcp' else HT.Client12(c_end, hello, rng)
         note = None
         try:
             ctx.begin(['hostile-' + pname, variant])
             if not cl.start():
                 note = 'server flight: ' + '; '.join(cl.log)
-            elif not cl.certificate_requested():
+            elif not cl.certificate_requested() and not suffix:
                 note = 'the server did not request a certificate'
+            elif pname != 'tlcp' and cl.server_point is None:
+                note = 'no usable ServerKeyExchange'
             else:
+                variant, full_variant = variant0, variant
                 cert = HT.certificate_msg(c_chain)
                 if variant == 'honest':
                     cl.send_plain(cert)
@@ -679,8 +701,10 @@ def u_hostile_tlcp(ctx, u):
                     cl.send_plain(cl.certificate_verify(other_priv))
                 cl.change_cipher_spec()
                 cl.finished()
+                variant = full_variant
         except (OSError, ValueError) as e:
             note = 'peer: %s' % e
+        variant = variant0 + suffix
         th.join(60)
         hung = th.is_alive()
         if hung:
@@ -690,7 +714,11 @@ def u_hostile_tlcp(ctx, u):
                 pass
             th.join(10)
         det = dict(proto=pname, role='server-verifies-client', variant=variant, note=note, server_messages=cl.server_msgs)
-        if variant == 'honest' and (hung or (note and 'timed out' in note)):
+        if variant0 == 'honest' and suffix:
+            # not a control: whether a hello without extensions is served at all is the server's choice
+            ctx.stat('hello_without_extensions_honest_%s' % ('completed' if srv.ret == 1 else 'refused'))
+            ctx.nontrivial('hostile-' + pname, variant, u.get('rep'))
+        elif variant == 'honest' and (hung or (note and 'timed out' in note)):
             ctx.stat('control_inconclusive_wall_clock')      # a loaded machine is not a verdict
         elif variant == 'honest':
             ctx.check(srv.ret == 1 and note is None, 'control:python-peer-honest-handshake-failed:' + pname, server_ret=srv.ret, **det)
